@@ -259,6 +259,12 @@ def run(rep: Report, tier: str) -> None:
         rep.add(Finding("R21.4", f"R21.4/memo/{_f.qualname}", _f.module.rel, _line, _f.qualname,
                         f"{_f.name} is memoised and {_why}: a period rendered under one time_period_output_format is returned again under another"))
     rep.instance("R21.4", "memo-inventory", nontrivial=False, sample=_n)
+    # ---- R21.7: what a period renders to does not depend on the periods rendered before (shared with C17 R17.2) ----
+    rep.rule("R21.7", "no function of the time handling / period rendering modules writes a process-global: a cache keyed by less than its result depends on (day number "
+                      "without the year) makes the same period render differently after another one was rendered")
+    from sa import globalsx as _gx7
+    _gx7.report_written_globals(P, rep, "R21.7", ("vtlengine.DataTypes.TimeHandling", "vtlengine.DataTypes._time_checking", "vtlengine.duckdb_transpiler.io._time_handling"),
+                                "the rendering of a period then depends on which periods were rendered earlier in the process")
     rep.assumptions = ["canonical internal form = TimePeriodHandler.__str__ (lowered from the source)", "SQL string functions SUBSTR/LENGTH/LPAD/"
                        "UPPER/CAST/TRY_CAST/|| have standard semantics; period_to_date(year,'D',n) = 1 January + (n-1) days"]
 
